@@ -1,2 +1,7 @@
 -- root of the library: every model, lemma and property module
 import NxsModel.Props.C01
+import NxsModel.Props.C02
+import NxsModel.Stream
+import NxsModel.Record
+import NxsModel.Pad
+import NxsModel.Requests
